@@ -6,7 +6,7 @@
 
     The same definitions are evaluated by [vm_compute] inside coqc (sample) and, extracted to
     OCaml, on the whole stream ([Extract/C02Extract.v]). *)
-From DL Require Import Lib.Bytes Model.Lexer Model.DenseGen.
+From DL Require Import Lib.Bytes Model.Lexer Model.DenseGen Model.Precedence.
 Open Scope N_scope.
 
 Record tcase := {
@@ -85,3 +85,119 @@ Definition diag_bytes (c : tcase) : bytes :=
   (if intent_ok c then [] else of_string "INTENT " ++
      match c_items c with Some its => lex_diff (canon its) (c_dense c) | None => [] end ++ [32]).
 End WithTables.
+
+(** * operator trees (stage 2)
+
+    One case = one operator tree (atoms are the names "a", "b", ...; atom 99 stands for any
+    number token), the text the dense generator wrote for [return <tree>] and the text the
+    readable generator wrote. *)
+
+Record pcase := { p_expr : expr; p_dense : bytes; p_readable : bytes }.
+
+Fixpoint expr_eqb (a b : expr) : bool :=
+  match a, b with
+  | EAtom x, EAtom y => x =? y
+  | EBin o l r, EBin o' l' r' => binop_eqb o o' && expr_eqb l l' && expr_eqb r r'
+  | EUn u x, EUn u' x' => unop_eqb u u' && expr_eqb x x'
+  | EParen x, EParen x' => expr_eqb x x'
+  | _, _ => false
+  end.
+
+Definition opsym_index (s : opsym) : nat :=
+  match s with
+  | SAnd => 0 | SOr => 1 | SEq => 2 | SNe => 3 | SLt => 4 | SLe => 5 | SGt => 6 | SGe => 7 | SPlus => 8
+  | SMinus => 9 | SStar => 10 | SSlash => 11 | SSlash2 => 12 | SPercent => 13 | SCaret => 14
+  | SConcat => 15 | SHash => 16 | SNot => 17
+  end%nat.
+Definition ptok_eqb (a b : ptok) : bool :=
+  match a, b with
+  | KAtom x, KAtom y => x =? y
+  | KOp s, KOp s' => Nat.eqb (opsym_index s) (opsym_index s')
+  | KLp, KLp | KRp, KRp => true
+  | _, _ => false
+  end.
+Fixpoint ptoks_eqb (a b : list ptok) : bool :=
+  match a, b with
+  | [], [] => true
+  | x :: a', y :: b' => ptok_eqb x y && ptoks_eqb a' b'
+  | _, _ => false
+  end.
+
+Definition sym_table : list (bytes * opsym) :=
+  [(of_string "and", SAnd); (of_string "or", SOr); (of_string "==", SEq); (of_string "~=", SNe);
+   (of_string "<", SLt); (of_string "<=", SLe); (of_string ">", SGt); (of_string ">=", SGe);
+   (of_string "+", SPlus); (of_string "-", SMinus); (of_string "*", SStar); (of_string "/", SSlash);
+   (of_string "//", SSlash2); (of_string "%", SPercent); (of_string "^", SCaret);
+   (of_string "..", SConcat); (of_string "#", SHash); (of_string "not", SNot)].
+
+Fixpoint find_sym (s : bytes) (l : list (bytes * opsym)) : option opsym :=
+  match l with
+  | [] => None
+  | (t, y) :: l' => if bytes_eqb s t then Some y else find_sym s l'
+  end.
+
+Definition ptok_of_token (t : token) : option ptok :=
+  let '(k, s) := t in
+  match k with
+  | TNumber => Some (KAtom 99)
+  | TName =>
+    match find_sym s sym_table with
+    | Some y => Some (KOp y)
+    | None => match s with [c] => Some (KAtom (c - 97)) | _ => None end
+    end
+  | TSym =>
+    match find_sym s sym_table with
+    | Some y => Some (KOp y)
+    | None => if bytes_eqb s [40] then Some KLp else if bytes_eqb s [41] then Some KRp else None
+    end
+  | _ => None
+  end.
+
+Fixpoint ptoks_of_tokens (l : list token) : option (list ptok) :=
+  match l with
+  | [] => Some []
+  | t :: l' =>
+    match ptok_of_token t, ptoks_of_tokens l' with
+    | Some p, Some r => Some (p :: r)
+    | _, _ => None
+    end
+  end.
+
+(** tokens of the expression in [return <expression>] *)
+Definition expr_ptoks (text : bytes) : option (list ptok) :=
+  match lex text with
+  | Some ((TName, r) :: l) => if bytes_eqb r (of_string "return") then ptoks_of_tokens l else None
+  | _ => None
+  end.
+
+Section WithPTable.
+Variable P : ptable.
+
+(** (1) model = code: the generator wrote exactly the tokens of the modelled printer *)
+Definition p_model_ok (text : bytes) (e : expr) : bool :=
+  match expr_ptoks text with
+  | Some l => ptoks_eqb l (tokens_of_expr P e)
+  | None => false
+  end.
+
+(** (2) oracle, independent of the model of the printer: the REFERENCE parser reads the real
+    text back as a tree with the same operator nesting *)
+Definition p_oracle_ok (text : bytes) (e : expr) : bool :=
+  match expr_ptoks text with
+  | Some l => match parse_expr l with
+              | Some e' => expr_eqb (strip e') (strip e)
+              | None => false
+              end
+  | None => false
+  end.
+
+Definition pcheck_case (c : pcase) : bool :=
+  p_model_ok (p_dense c) (p_expr c) && p_model_ok (p_readable c) (p_expr c)
+  && p_oracle_ok (p_dense c) (p_expr c) && p_oracle_ok (p_readable c) (p_expr c).
+
+Definition pdiag_bytes (c : pcase) : bytes :=
+  (if p_model_ok (p_dense c) (p_expr c) then [] else of_string "MODEL-DENSE ") ++
+  (if p_model_ok (p_readable c) (p_expr c) then [] else of_string "MODEL-READABLE ") ++
+  (if p_oracle_ok (p_dense c) (p_expr c) then [] else of_string "ORACLE-DENSE ") ++
+  (if p_oracle_ok (p_readable c) (p_expr c) then [] else of_string "ORACLE-READABLE ").
+End WithPTable.
